@@ -31,6 +31,53 @@ def thresholds(rng, pts, knees):
     return out
 
 
+def noisy_curve(rng, n):
+    """decreasing trend + noise of the size of the steps: inside a run of knees a LATER knee is often higher than the first
+    (the cluster's peak is then not its first knee) — added after the seeded change C12-r2m2"""
+    xs = gen.xs_increasing(rng, n, rng.choice(['unit', 'int', 'float']))
+    kind = rng.choice(['int', 'half', 'float'])
+    ys = []
+    base = rng.randint(n, 4 * n)
+    for i in range(n):
+        if kind == 'int':
+            v = base - i + rng.randint(-4, 4)
+        elif kind == 'half':
+            v = base - i + rng.randint(-8, 8) / 2.0
+        else:
+            v = base - i + rng.uniform(-4, 4)
+        ys.append(float(max(v, 0)))
+    return 'noisy', [[float(a), float(b)] for a, b in zip(xs, ys)]
+
+
+def small_int_curve(rng, n):
+    """small integer coordinates, odd x-steps and y-steps: corner-triangle areas 0.5*dx*dy are half-integers (2.0 vs 2.5 ...),
+    which an integer-typed score array would truncate to ties — added after the seeded change C12-r2m3"""
+    x = rng.choice([0, 1, 5])
+    xs, ys = [], []
+    y = rng.randint(6, 12)
+    for _ in range(n):
+        xs.append(float(x))
+        ys.append(float(max(y, 0)))
+        x += rng.choice([1, 1, 1, 3, 5])
+        y += rng.choice([-3, -1, -1, -1, 1, -5, 3])
+    return 'small_int', [[a, b] for a, b in zip(xs, ys)]
+
+
+def pick_curve(rng, n):
+    u = rng.random()
+    if u < 0.2:
+        return noisy_curve(rng, n)
+    if u < 0.35:
+        return small_int_curve(rng, n)
+    if u < 0.85:
+        return gen.curve(rng, n)
+    return gen.mrc_curve(rng, n)
+
+
+def integral(pts):
+    return all(float(v).is_integer() and abs(v) < 2 ** 40 for p in pts for v in p)
+
+
 class C12:
     id = 'C12'
     judge_module = 'Run.JudgeC12'
@@ -45,7 +92,7 @@ class C12:
                    'Tier-O clause fc_best / fcc_best is vacuous for a cluster whose score list contains a NaN (counted in histogram nan_scores)',
                    'cases whose maximal ranking value is tied inside a ranked cluster are judged on the predicate only (agree code 5): np.argsort is unstable on ties']
     trusted = ['modelled: postprocessing.filter_clusters, filter_clusters_corners, rank_corners_triangle, knee_ranking.rank, distance_to_similarity',
-               'oracles (the library\'s own values): kr.smooth_ranking per cluster, convex_hull.graham_scan_lower, np.sum(lf.shortest_distance_points(...)) per range, clustering labels',
+               'oracles (the library\'s own values): lf.r2 per slice (the left/linear/right score is DERIVED in the model; kr.smooth_ranking and rank_corners_triangle outputs are only observed and compared bit-for-bit with the derived scores), convex_hull.graham_scan_lower, np.sum(lf.shortest_distance_points(...)) per range, clustering labels',
                'np.argsort modelled as any sorting permutation (theorems quantify over it); executable instance: stable sort, NaN last']
     timeout = 20.0
     shard = 200
@@ -58,24 +105,25 @@ class C12:
         allcfg = tier == 'thorough'
         for n in range(4, nmax + 1):
             for _ in range(per_n):
-                fam, pts = gen.curve(rng, n)
+                fam, pts = pick_curve(rng, n)
+                i64 = integral(pts) and rng.random() < 0.5
                 for ks in interior_subsets(n):
                     ts = thresholds(rng, pts, ks)
                     if allcfg and n <= 7:
                         for mode in MODES:
                             link = LINKS[cfg % 4]
                             cfg += 1
-                            cases.append({'points': pts, 'family': fam, 'knees': ks, 'link': link, 't': rng.choice(ts), 'mode': mode})
+                            cases.append({'points': pts, 'family': fam, 'knees': ks, 'link': link, 't': rng.choice(ts), 'mode': mode, 'int64': i64})
                     else:
                         mode = MODES[cfg % 5]
                         link = LINKS[(cfg // 5) % 4]
                         cfg += 1
-                        cases.append({'points': pts, 'family': fam, 'knees': ks, 'link': link, 't': rng.choice(ts), 'mode': mode})
+                        cases.append({'points': pts, 'family': fam, 'knees': ks, 'link': link, 't': rng.choice(ts), 'mode': mode, 'int64': i64})
         nrand = {'quick': 360, 'search': 300, 'thorough': 9000}.get(tier, 360)
         hi = 40 if tier == 'thorough' else 16
         for _ in range(nrand):
             n = rng.randint(6, hi)
-            fam, pts = gen.curve(rng, n) if rng.random() < 0.8 else gen.mrc_curve(rng, n)
+            fam, pts = pick_curve(rng, n)
             k = rng.randint(2, n - 2)
             mode = MODES[cfg % 5]
             # filter_clusters accepts knees at the curve ends (the hull branch clamps the span's neighbours); the corner
@@ -90,7 +138,8 @@ class C12:
                 ks = sorted(rng.sample(range(klo, khi), k))
             link = LINKS[(cfg // 5) % 4]
             cfg += 1
-            cases.append({'points': pts, 'family': fam, 'knees': ks, 'link': link, 't': rng.choice(thresholds(rng, pts, ks)), 'mode': mode})
+            cases.append({'points': pts, 'family': fam, 'knees': ks, 'link': link, 't': rng.choice(thresholds(rng, pts, ks)), 'mode': mode,
+                          'int64': integral(pts) and rng.random() < 0.5})
         return cases
 
     def on_timeout(self, c):
@@ -106,7 +155,8 @@ class C12:
         import kneeliverse.convex_hull as ch
         import kneeliverse.linear_fit as lf
         c = dict(c)
-        P = np.array(c['points'], dtype=float)
+        # integer-valued curves are presented as int64 arrays in a share of the cases (the model is fed the same values as floats)
+        P = np.array(c['points'], dtype=np.int64) if c.get('int64') and integral(c['points']) else np.array(c['points'], dtype=float)
         K = np.array(c['knees'], dtype=int)
         f = getattr(cl, c['link'] + '_linkage')
         rec = []
@@ -130,6 +180,8 @@ class C12:
         c['labels'] = labels
         c['hull'] = []
         c['scores'] = []
+        c['r2'] = []
+        c['obs'] = []
         c['sd'] = []
         c['nan_scores'] = False
         c['multi'] = 0
@@ -138,6 +190,11 @@ class C12:
         clusters = [[k for k, l in zip(c['knees'], labels) if l == i] for i in range(max(labels) + 1)]
         c['multi'] = sum(1 for cc in clusters if len(cc) > 1)
         if mode == 'corner':
+            # what the library's own score function returns per cluster (compared bit-for-bit with the derived tri_score)
+            for cc in clusters:
+                st6, r = call(pp.rank_corners_triangle, P, np.array(cc, dtype=int))
+                if st6 == 'ok':
+                    c['obs'].append([cc, [float(v) for v in r]])
             return c
         if mode == 'hull':
             st3, hull = call(ch.graham_scan_lower, P)
@@ -171,6 +228,18 @@ class C12:
                     c['scores'].append([cc, r])
                     if any(v != v for v in r):
                         c['nan_scores'] = True
+                # the irreducible oracle of the score: the fit quality lf.r2 of the slices smooth_ranking looks at
+                x, y = P[:, 0], P[:, 1]
+                j, kl = cc[0], cc[-1]
+                r2 = {}
+                for k in cc:
+                    for (a, b) in ((j, k + 1), (k, kl)):
+                        if (a, b) not in r2:
+                            st7, v = call(lf.r2, x[a:b], y[a:b])
+                            if st7 == 'ok':
+                                r2[(a, b)] = float(v)
+                have = {(a, b) for a, b, _ in c['r2']}
+                c['r2'] += [[a, b, v] for (a, b), v in sorted(r2.items()) if (a, b) not in have]
         return c
 
     def emit(self, c):
@@ -179,23 +248,24 @@ class C12:
         xs = cfls([p[0] for p in c['points']])
         ys = cfls([p[1] for p in c['points']])
         out = copt(c['out'], cnats)
+        tab = lambda t: clist(['(%s, %s)' % (cnats(k), cfls(v)) for k, v in t])
         if c['mode'] == 'corner':
-            return 'CCorner %s %s %s %s %s' % (xs, ys, cnats(c['knees']), cnats(c['labels']), out)
-        scores = clist(['(%s, %s)' % (cnats(k), cfls(v)) for k, v in c['scores']])
+            return 'CCorner2 %s %s %s %s %s %s' % (xs, ys, cnats(c['knees']), cnats(c['labels']), tab(c.get('obs', [])), out)
         sd = clist(['(%s, %s, %s)' % (cnat(l), cnat(r), fl(v)) for l, r, v in c['sd']])
-        return 'CFilt %s %s %s %s %s %s %s %s %s' % (CMODE[c['mode']], xs, ys, cnats(c['knees']), cnats(c['labels']),
-                                                     cnats(c['hull']), scores, sd, out)
+        r2 = clist(['(%s, %s, %s)' % (cnat(l), cnat(r), fl(v)) for l, r, v in c.get('r2', [])])
+        return 'CFilt2 %s %s %s %s %s %s %s %s %s %s' % (CMODE[c['mode']], xs, ys, cnats(c['knees']), cnats(c['labels']),
+                                                         cnats(c['hull']), r2, tab(c['scores']), sd, out)
 
     def nontrivial_key(self, c):
         if c.get('skip') or not c.get('multi'):
             return None
-        return (str(c['points']), tuple(c['knees']), tuple(c['labels']), c['mode'])
+        return (str(c['points']), tuple(c['knees']), tuple(c['labels']), c['mode'], bool(c.get('int64')))
 
     def classify(self, c):
         if c.get('skip'):
             return {'mode': 'skipped'}
         h = {'mode': c['mode'], 'linkage': c['link'], 'n': min(len(c['points']), 64) // 4 * 4, 'family': c.get('family'),
-             'multi_member_clusters': min(c.get('multi', 0), 5), 'outcome': 'exception:%s' % c['exc'] if c.get('exc') else 'ok'}
+             'multi_member_clusters': min(c.get('multi', 0), 5), 'dtype': 'int64' if c.get('int64') else 'float64', 'outcome': 'exception:%s' % c['exc'] if c.get('exc') else 'ok'}
         if c['mode'] in ('left', 'linear', 'right'):
             h['nan_scores (Tier-O clause vacuous)'] = bool(c.get('nan_scores'))
         return h
@@ -203,7 +273,7 @@ class C12:
     def shrink(self, c):
         out = []
         pts, ks = c['points'], c['knees']
-        base = {k: v for k, v in c.items() if k in ('points', 'family', 'knees', 'link', 't', 'mode')}
+        base = {k: v for k, v in c.items() if k in ('points', 'family', 'knees', 'link', 't', 'mode', 'int64')}
         for j in range(len(ks)):
             if len(ks) > 2:
                 d = dict(base)
@@ -219,15 +289,16 @@ class C12:
         return out
 
     def sample(self, c):
-        keys = ['points', 'knees', 'link', 't', 'mode', 'labels', 'hull', 'scores', 'out']
+        keys = ['points', 'knees', 'link', 't', 'mode', 'int64', 'labels', 'hull', 'scores', 'r2', 'obs', 'out']
         return {k: c[k] for k in keys if k in c}
 
     def describe(self, c):
+        dt = ', dtype=np.int64' if c.get('int64') else ''
         if c['mode'] == 'corner':
-            return ('kneeliverse.postprocessing.filter_clusters_corners(np.array(%s), np.array(%s), kneeliverse.clustering.%s_linkage, %r)'
-                    % (c['points'], c['knees'], c['link'], c['t']))
-        return ('kneeliverse.postprocessing.filter_clusters(np.array(%s), np.array(%s), kneeliverse.clustering.%s_linkage, %r, '
-                'kneeliverse.knee_ranking.ClusterRanking.%s)' % (c['points'], c['knees'], c['link'], c['t'], c['mode']))
+            return ('kneeliverse.postprocessing.filter_clusters_corners(np.array(%s%s), np.array(%s), kneeliverse.clustering.%s_linkage, %r)'
+                    % (c['points'], dt, c['knees'], c['link'], c['t']))
+        return ('kneeliverse.postprocessing.filter_clusters(np.array(%s%s), np.array(%s), kneeliverse.clustering.%s_linkage, %r, '
+                'kneeliverse.knee_ranking.ClusterRanking.%s)' % (c['points'], dt, c['knees'], c['link'], c['t'], c['mode']))
 
 
 def as_nat_list(a):
